@@ -108,6 +108,13 @@ def is_conc(x):
     return isinstance(x, (bool, int, float))
 
 
+def _dg(x):
+    """finite-table values (kverif.gtab.G) take part in scalar arithmetic as case lists"""
+    if type(x).__name__ == "G":
+        return x.cases()
+    return x
+
+
 def is_bitlike(x):
     return isinstance(x, (Aff, BX)) or (is_conc(x) and x in (0, 1))
 
@@ -120,7 +127,19 @@ def zbool(x):
         return x.e
     if is_conc(x):
         return z3.BoolVal(bool(x))
-    if isinstance(x, (Poly, SqrtV, Cases)):
+    if type(x).__name__ == "G":
+        return x.zbool()
+    if isinstance(x, Cases):
+        ts = []
+        for g, v in x.cs:
+            t = band(g, tobit(v))
+            if is_conc(t):
+                if t:
+                    return z3.BoolVal(True)
+                continue
+            ts.append(zbool(t))
+        return z3.Or(ts) if len(ts) > 1 else (ts[0] if ts else z3.BoolVal(False))
+    if isinstance(x, (Poly, SqrtV)):
         return zbool(ne(x, 0))
     if isinstance(x, Cx):
         return z3.Or(zbool(ne(x.re, 0)), zbool(ne(x.im, 0)))
@@ -180,6 +199,7 @@ def bor(a, b):
 
 
 def tobit(x):
+    x = _dg(x)
     """scalar -> bit-like truth value (x != 0)"""
     if is_bitlike(x):
         return x
@@ -312,6 +332,7 @@ def _simp(p):
 def topoly(x):
     if isinstance(x, Poly):
         return x
+    x = _dg(x)
     if isinstance(x, Aff):
         if not x.vs:
             return Poly({(): Fraction(x.c)} if x.c else {})
@@ -525,8 +546,11 @@ class Cx:
 
 
 def tocx(x):
+    x = _dg(x)
     if isinstance(x, Cx):
         return x
+    if isinstance(x, Cases):
+        return Cx(x.map(lambda v: tocx(v).re), x.map(lambda v: tocx(v).im))
     if isinstance(x, complex):
         return Cx(x.real, x.imag)
     return Cx(x, 0.0 if isinstance(x, float) else 0)
@@ -625,6 +649,7 @@ def f32(x):
 
 
 def add(a, b):
+    a, b = _dg(a), _dg(b)
     if not _is_sym(a) and not _is_sym(b):
         return a + b
     if isinstance(a, (Cx, complex)) or isinstance(b, (Cx, complex)):
@@ -636,6 +661,7 @@ def add(a, b):
 
 
 def sub(a, b):
+    a, b = _dg(a), _dg(b)
     if not _is_sym(a) and not _is_sym(b):
         return a - b
     if isinstance(a, (Cx, complex)) or isinstance(b, (Cx, complex)):
@@ -647,6 +673,7 @@ def sub(a, b):
 
 
 def neg(a):
+    a = _dg(a)
     if not _is_sym(a):
         return -a
     if isinstance(a, Cx):
@@ -657,6 +684,7 @@ def neg(a):
 
 
 def mul(a, b):
+    a, b = _dg(a), _dg(b)
     if not _is_sym(a) and not _is_sym(b):
         return a * b
     if isinstance(a, (Cx, complex)) or isinstance(b, (Cx, complex)):
@@ -678,6 +706,7 @@ def mul(a, b):
 
 
 def div(a, b):
+    a, b = _dg(a), _dg(b)
     if not _is_sym(a) and not _is_sym(b):
         if b == 0:
             if isinstance(a, complex) or isinstance(b, complex):
@@ -716,6 +745,7 @@ def reciprocal(a):
 
 
 def sqrt(a):
+    a = _dg(a)
     if not _is_sym(a):
         return math.sqrt(a) if a >= 0 else math.nan
     if isinstance(a, Cases):
@@ -726,12 +756,14 @@ def sqrt(a):
 
 
 def square(a):
+    a = _dg(a)
     if isinstance(a, SqrtV):
         return _simp(a.p)
     return mul(a, a)
 
 
 def powi(a, k):
+    a = _dg(a)
     """a ** k for a concrete exponent"""
     if not _is_sym(a):
         return a ** k
@@ -766,6 +798,7 @@ def powi(a, k):
 
 
 def _cmp(a, b, op):
+    a, b = _dg(a), _dg(b)
     """returns bit-like"""
     if not _is_sym(a) and not _is_sym(b):
         return {"<": a < b, "<=": a <= b, "==": a == b, "!=": a != b}[op]
@@ -776,7 +809,8 @@ def _cmp(a, b, op):
         e = band(_cmp(a.re, b.re, "=="), _cmp(a.im, b.im, "=="))
         return e if op == "==" else bnot(e)
     if isinstance(a, Cases) or isinstance(b, Cases):
-        return lift_cases(lambda x, y: _cmp(x, y, op), a, b)
+        r = lift_cases(lambda x, y: _cmp(x, y, op), a, b)
+        return r.collapse() if isinstance(r, Cases) else r
     if op in ("==", "!=") and is_bitlike(a) and is_bitlike(b):
         x = bxor(a, b)
         return bnot(x) if op == "==" else x
@@ -841,6 +875,7 @@ def ne(a, b):
 
 
 def where(c, a, b):
+    c, a, b = _dg(c), _dg(a), _dg(b)
     if is_conc(c):
         return a if c else b
     if a is b:
@@ -871,18 +906,21 @@ def where(c, a, b):
 
 
 def minimum(a, b):
+    a, b = _dg(a), _dg(b)
     if not _is_sym(a) and not _is_sym(b):
         return min(a, b)
     return where(le(a, b), a, b)
 
 
 def maximum(a, b):
+    a, b = _dg(a), _dg(b)
     if not _is_sym(a) and not _is_sym(b):
         return max(a, b)
     return where(ge(a, b), a, b)
 
 
 def absv(a):
+    a = _dg(a)
     if not _is_sym(a):
         return abs(a)
     if isinstance(a, Cx):
@@ -895,6 +933,7 @@ def absv(a):
 
 
 def sign(a):
+    a = _dg(a)
     if not _is_sym(a):
         return (a > 0) - (a < 0) if not isinstance(a, float) else float((a > 0) - (a < 0))
     if is_bitlike(a):
@@ -918,6 +957,7 @@ def clamp(a, lo, hi):
 
 
 def mod2(x):
+    x = _dg(x)
     """x mod 2 for an integer-valued scalar"""
     if not _is_sym(x):
         return x % 2
@@ -943,6 +983,7 @@ def mod2(x):
 
 
 def remainder(x, k):
+    x = _dg(x)
     if not _is_sym(x):
         return x % k
     if k == 2:
@@ -956,6 +997,7 @@ def remainder(x, k):
 
 
 def floordiv(x, k):
+    x = _dg(x)
     if not _is_sym(x):
         return x // k
     if isinstance(x, Cases):
@@ -967,6 +1009,7 @@ def floordiv(x, k):
 
 
 def round_(x):
+    x = _dg(x)
     if not _is_sym(x):
         return round(x) if not isinstance(x, float) else float(round(x))  # python round = half-to-even, as torch
     if is_bitlike(x):
@@ -980,6 +1023,7 @@ def round_(x):
 
 
 def to_int_like(x):
+    x = _dg(x)
     """float -> integer dtype cast (trunc); only integer-valued symbolics are encodable"""
     if isinstance(x, float):
         return int(x)
@@ -1017,6 +1061,8 @@ def zval(model, e):
 def evaluate(x, model):
     if not _is_sym(x):
         return x
+    if type(x).__name__ == "G":
+        return x.evaluate(model)
     if isinstance(x, Aff):
         r = x.c
         for v in x.vs:
